@@ -427,3 +427,51 @@ class RegexFlagModifierKeepsParts(Contract):
         n = sum(isinstance(p, Placeholder) for v in item.value for p in v.regexp.s)
         want = values["text"].count("%") // 2
         return None if n == want else f"f|{values['chain']}: {values['text']!r} has {n} placeholder parts after the modifier chain, {want} expected (parts {[v.regexp.s for v in item.value]})"
+
+
+@register
+class RegexEscapePlaceholder(Contract):
+    """SigmaRegularExpression.escape - the last step before a regular expression becomes query text: a regular expression that still holds
+    a placeholder is never rendered, whatever the escaping configuration of the backend (nothing to escape, no escape of the escape
+    character, flags or not) and wherever the placeholder sits"""
+    id = "C17.SigmaRegularExpression.escape[placeholder]"
+    target = "sigma.types:SigmaRegularExpression.escape"
+    props = ("C17", "C05")
+    cases = tuple((esc, eec, fp, pos, flags) for esc in ((), ("/",), ("/", "bar")) for eec in (False, True) for fp in (False, True) for pos in ("first", "middle", "last", "only") for flags in (False, True))
+    assumed = ["str(SigmaString), re.escape, re.finditer are abstract (the error must come before any text is produced)"]
+
+    def setup(self, E):
+        E.summaries["sigma.types:SigmaString.__str__"] = lambda I, so, a, k: I.fresh("plain_text", "str")
+
+    def args(self, I, case):
+        esc, eec, fp, pos, flags = case
+        idx = I.E.index
+        ph = SObj(idx.lookup("sigma.types:Placeholder"), {"name": I.fresh("name", "str")})
+        parts = {"first": [ph, "bar.*"], "middle": ["foo", ph, "bar.*"], "last": ["foo", ph], "only": [ph]}[pos]
+        rx = SObj(idx.lookup("sigma.types:SigmaString"), {"s": parts}, lazy=True)
+        me = SObj(idx.lookup("sigma.types:SigmaRegularExpression"), {"regexp": rx, "flags": ({EnumVal(idx.lookup("sigma.types:SigmaRegularExpressionFlag"), "IGNORECASE")} if flags else set())}, lazy=True)
+        return {"self": me, "args": [list(esc), "\\", eec, fp]}
+
+    def post(self, I, inp, r):
+        I.ctx.require(False, "a regular expression with an unhandled placeholder is not rendered (SigmaPlaceholderError)")
+
+    def raises(self, I, inp, exc):
+        I.ctx.require(exc_is(I, exc, "SigmaPlaceholderError"), f"SigmaPlaceholderError (got {exc_name(exc)})")
+
+    def frame_ok(self, I, inp, obj, name):
+        return False
+
+    def candidates(self):
+        return iter(({"escaped": [], "escape_escape_char": False}, {"escaped": ["/"], "escape_escape_char": True}))
+
+    def replay(self, values):
+        if "escaped" not in values:
+            return None
+        from sigma.types import SigmaRegularExpression, SigmaString
+        from sigma.exceptions import SigmaPlaceholderError
+        rx = SigmaRegularExpression(SigmaString("foo%user%bar.*").insert_placeholders())
+        try:
+            out = rx.escape(values["escaped"], "\\", values["escape_escape_char"], True)
+        except SigmaPlaceholderError:
+            return None
+        return f"regular expression foo%user%bar.* with the placeholder user unresolved, escape(escaped={values['escaped']}, escape_escape_char={values['escape_escape_char']}) renders {out!r}"
